@@ -319,6 +319,15 @@ class ASTRewriter(ast.NodeTransformer):
         return node
 
     def visit_FunctionDef(self, node):
+        if self.ret is not None:
+            # A function defined inside the function: its arguments and variables are its
+            # own, they must not replace the types of the enclosing function's variables
+            inner = ASTRewriter()
+            inner._uniqd = self._uniqd
+            node = inner.visit(node)
+            self._uniqd = inner._uniqd
+            return node
+
         for x in node.args.args:
             self.env.set_type(x.arg, x.annotation)
 
